@@ -34,6 +34,7 @@ import (
 	"github.com/thushan/olla/internal/core/domain"
 	"github.com/thushan/olla/internal/logger"
 	"github.com/thushan/olla/internal/util"
+	"github.com/thushan/olla/internal/zz_verif/stack"
 	"github.com/thushan/olla/internal/zz_verif/vlib"
 )
 
@@ -421,12 +422,9 @@ func startStack(engine, backendAddr, base string, preserve bool) (*stk, error) {
 			URL: "http://" + backendAddr + base, Name: "only", Type: "openai", Priority: &pr,
 			HealthCheckURL: "/zz-health", ModelURL: "/zz-models", CheckInterval: 10 * time.Minute, CheckTimeout: 2 * time.Second, PreservePath: preserve,
 		}}
-		ln, err := net.Listen("tcp", "127.0.0.1:0")
-		if err != nil {
-			return nil, err
-		}
-		cfg.Server.Port = ln.Addr().(*net.TCPAddr).Port
-		ln.Close()
+		// a port from this process's reserved block (picking a free ephemeral port and closing it again lets another
+		// process's listener take it before the server binds it)
+		cfg.Server.Port = stack.FreePort()
 		ctx, cancel := context.WithCancel(context.Background())
 		mgr, err := app.CreateAndStartServiceManager(ctx, cfg, quietLog())
 		if err != nil {
